@@ -66,7 +66,14 @@ CheckWs(e) == Verdicts(<<
 OtherKeys == {"protocol", "username", "password", "host", "hostname", "port", "pathname", "hash"}
 NoBadPct(s) == \A i \in 1..Len(s) : s[i] = 37 => IsPctTriple(s, i)
 NoEmptyInnerSegment(path) == ~\E i \in 1..(Len(path) - 1) : path[i] = 47 /\ path[i + 1] = 47
-CheckOpt(e) ==
+(* the option on the setter path: e.in is the VALUE of setter e.setter on a fixed start URL; the trigger is evaluated on the value *)
+CheckOptSetter(e) ==
+  Verdicts(<<
+    <<"crash", ~(Crashed(e.d) \/ Crashed(e.o))>>,
+    <<"neutrality (setter path): the option changed the effect of a setter whose value does not contain its trigger",
+        Trigger(e.opt, e.in, <<>>) \/ SameRes(e.o, e.d)>>
+  >>)
+CheckOptParse(e) ==
   LET base == IF e.bs = <<>> THEN None ELSE Some(Parse(e.bs[1], None, None).u)
       r == Parse(e.in, base, None)                                  \* the specification's default run
       specAgrees == r.asked = None /\ (r.res = "fail") = e.d.fail /\ (r.res = "ok" => Getters(r.u) = e.d.g)
@@ -144,7 +151,7 @@ CheckRobust(e) == Verdicts(<< <<"a public call panicked, hung or returned (nil, 
 
 Check(e) == CASE e.k = "law" -> CheckLaw(e)
               [] e.k = "robust" -> CheckRobust(e)
-              [] e.k = "opt" -> CheckOpt(e)
+              [] e.k = "opt" -> IF e.setter = "" THEN CheckOptParse(e) ELSE CheckOptSetter(e)
               [] e.k = "idem" -> CheckIdem(e)
               [] e.k = "class" -> CheckClass(e)
               [] e.k = "ws" -> CheckWs(e)
